@@ -97,10 +97,18 @@ def r2(R, f):
     g = crules.guard_set(cfg, tn.id)
     # tolerance squared variable: assigned tol*tol
     tolsq = None
+    cands = []
     for st, x in cfront.all_exprs(f.body):
-        if x.k == "asg" and x.op == "=" and x.a[0].k == "var" and estr(x.a[1]) in ("(%s * %s)" % (p_tol, p_tol),):
-            tolsq = x.a[0].name
-    R.check(tolsq is not None, "C07.R2", f.file, f.line, f.name, "tolsq = tol * tol",
+        if x.k == "asg" and x.op == "=" and x.a[0].k == "var" and any(y.k == "var" and y.name == p_tol for y in cfront.ewalk(x.a[1])):
+            cands.append((x.a[0].name, estr(x.a[1]), x.line))
+    for st in cfront.swalk(f.body):
+        if st.k == "decl" and st.init is not None and any(y.k == "var" and y.name == p_tol for y in cfront.ewalk(st.init)):
+            cands.append((st.var.name, estr(st.init), st.line))
+    R.shape(bool(cands), "C07.R2", f.file, f.name, "a local computed from %s (the squared tolerance)" % p_tol)
+    for nm, txt, ln in cands:
+        if txt.replace(" ", "").strip("()") in ("%s*%s" % (p_tol, p_tol),):
+            tolsq = nm
+    R.check(tolsq is not None, "C07.R2", f.file, cands[0][2] or f.line, f.name, "tolsq = tol * tol (found %s)" % [c[:2] for c in cands],
             "the squared tolerance is no longer computed as tol*tol")
     err = None
     for op, a, b in g:
